@@ -1,12 +1,28 @@
 #!/bin/bash
-# Build the framework offline from files on disk: compile the harness workspace's
-# dependencies once with Kani's toolchain so that checks only rebuild what changed.
+# Build the framework offline from files on disk:
+#  * harness workspace (Kani toolchain): dependencies of every harness crate are compiled once,
+#  * native replay crate (/verif/replay, --cfg pallas_verif) incl. the validation of mirsym's trusted
+#    model tables against the real crates (dashu IBig model),
+#  * MANIFEST.json regenerated from lib/propsd.
 set -e
 cd "$(dirname "$(readlink -f "$0")")"
 export CARGO_NET_OFFLINE=true
-mkdir -p out evidence
+mkdir -p out evidence mirsym/cache
 [ -f kani/Cargo.lock ] || cp /repo/Cargo.lock kani/Cargo.lock
+[ -f replay/Cargo.lock ] || cp /repo/Cargo.lock replay/Cargo.lock
 python3 lib/gen_manifest.py >/dev/null
-(cd kani && cargo kani --workspace --only-codegen -Z unstable-options -Z stubbing >out-setup.log 2>&1 || { tail -50 out-setup.log; exit 1; })
-rm -f kani/out-setup.log
+python3-vt -c "import z3" || { echo "z3 python API missing in python3-vt"; exit 1; }
+# 1. harness crates: one cheap harness per crate pulls the whole dependency graph through kani-compiler
+for c in kani/k_*/; do
+  c=$(basename "$c")
+  h=$(grep -rhoE "fn (c[0-9]{2}_v_[A-Za-z0-9_]+)" "kani/$c/src" | head -1 | awk '{print $2}')
+  [ -z "$h" ] && continue
+  (cd kani && cargo kani -p "$c" --only-codegen -Z unstable-options -Z stubbing --harness "$h" >"../out/setup-$c.log" 2>&1) \
+     || { echo "setup: kani build of $c failed"; tail -30 "out/setup-$c.log"; exit 1; }
+done
+# 2. native replay crate + validation of the trusted model tables
+(cd replay && CARGO_TARGET_DIR=$PWD/target RUSTFLAGS="--cfg pallas_verif" cargo test --offline --no-run >../out/setup-replay.log 2>&1) \
+   || { echo "setup: replay crate failed to build"; tail -30 out/setup-replay.log; exit 1; }
+(cd replay && CARGO_TARGET_DIR=$PWD/target RUSTFLAGS="--cfg pallas_verif" cargo test --offline --test dashu_model >>../out/setup-replay.log 2>&1) \
+   || { echo "setup: mirsym's IBig model table disagrees with dashu"; tail -30 out/setup-replay.log; exit 1; }
 echo setup ok
